@@ -177,7 +177,13 @@ func (r *ResourceRepository[ResourceType, OptionsType]) buildFilteredDataset(q R
 	if q.Builder != nil {
 		// Convert filters to where clause
 		where, args, err := q.Builder.Build(query.ContextFn(func(key, operator string, value any) (string, []any, error) {
-			return r.resourceHandler.ResolveFilter(q, operator, key, value)
+			clause, args, err := r.resourceHandler.ResolveFilter(q, operator, key, value)
+			if err == nil && len(args) == 0 && strings.Contains(clause, "?") {
+				// a clause without arguments embeds the filter value in its text; a '?' in it would be read as a
+				// placeholder as soon as another clause brings arguments, splicing that argument into this literal
+				return "", nil, NewErrInvalidQuery("invalid character '?' in the value of filter '%s'", key)
+			}
+			return clause, args, err
 		}))
 		if err != nil {
 			return nil, err
